@@ -8,13 +8,16 @@ characters stay symbolic.  Outside CrossHair (concrete replay) it returns its ar
 """
 
 
+try:
+    import z3
+    from crosshair.tracers import is_tracing, NoTracing
+    from crosshair.libimpl.builtinslib import LazyIntSymbolicStr, SymbolicInt, SymbolicBool
+except Exception:  # noqa  (crosshair not installed: everything below falls back to plain Python)
+    is_tracing = None
+
+
 def fixed(s):
-    try:
-        from crosshair.tracers import is_tracing, NoTracing
-        from crosshair.libimpl.builtinslib import LazyIntSymbolicStr
-    except Exception:  # noqa
-        return s
-    if not is_tracing():
+    if is_tracing is None or not is_tracing():
         return s
     n = len(s)
     cps = [ord(s[i]) for i in range(n)]      # forks on the length (bounded by the harness precondition)
@@ -57,18 +60,12 @@ def py_over_class(s, ascii_chars, nonascii=True, sep=None, trimmed=None):
 
 
 def over_class(s, ascii_chars, nonascii=True, sep=None, trimmed=None):
-    try:
-        from crosshair.tracers import is_tracing, NoTracing
-        from crosshair.libimpl.builtinslib import LazyIntSymbolicStr, SymbolicInt, SymbolicBool
-    except Exception:  # noqa
-        return py_over_class(s, ascii_chars, nonascii, sep, trimmed)
-    if not is_tracing():
+    if is_tracing is None or not is_tracing():
         return py_over_class(s, ascii_chars, nonascii, sep, trimmed)
     n = len(s)
     cps = [ord(s[i]) for i in range(n)]          # forks on the length only
     n = len(cps)
     with NoTracing():
-        import z3
         if not any(isinstance(cp, SymbolicInt) for cp in cps):
             return py_over_class("".join(chr(cp) for cp in cps), ascii_chars, nonascii, sep, trimmed)
         terms = [(cp.var if isinstance(cp, SymbolicInt) else z3.IntVal(cp)) for cp in cps]
@@ -89,3 +86,26 @@ def over_class(s, ascii_chars, nonascii=True, sep=None, trimmed=None):
                     conj.append(terms[0] != ord(ch))
                     conj.append(terms[n - 1] != ord(ch))
         return SymbolicBool(z3.And(*conj)) if conj else True
+
+
+def py_at_most(s, ch, k):
+    n = 0
+    for c in s:
+        if c == ch:
+            n += 1
+    return n <= k
+
+
+def at_most(s, ch, k):
+    """the character `ch` occurs at most k times in s (one solver term, like over_class)"""
+    if is_tracing is None or not is_tracing():
+        return py_at_most(s, ch, k)
+    n = len(s)
+    cps = [ord(s[i]) for i in range(n)]
+    with NoTracing():
+        if not any(isinstance(cp, SymbolicInt) for cp in cps):
+            return py_at_most("".join(chr(cp) for cp in cps), ch, k)
+        terms = [(cp.var if isinstance(cp, SymbolicInt) else z3.IntVal(cp)) for cp in cps]
+        if not terms:
+            return True
+        return SymbolicBool(z3.Sum([z3.If(t == ord(ch), 1, 0) for t in terms]) <= k)
